@@ -853,6 +853,7 @@ def execute(trace, rng):
     st["requests"] = len(tr.requests)
     for kk, v in tr.fired.items():
         st["fault." + kk] = v
+    st["fault.timed_wait_expired"] = sim_stats.get("timed_wait_expired", 0)
     nontrivial = bool(world.stats["old_node_requests"] and world.stats["long_chains"])
     h = hashlib.blake2b(json.dumps([trace["ops"], sched], sort_keys=True, default=str).encode(),
                         digest_size=8).hexdigest()
